@@ -1,9 +1,11 @@
 // C06: write() then read() restores the complete observable state of a grid (binary format; ASCII runs as an un-counted concrete sanity pass).
 // args: <grid spec> <history> <binary 1/0>
 //  history: 0 fresh | 1 loaded | 2 loaded + pending refinement | 3 active construction (loaded + parked samples) | 4 empty grid | 5 loaded + conformal map | 6 merged refinement + coefficient overwrite
+//           9 solver-chosen: three steps, each one of {nothing, load / overwrite, pending refinement, merge, update, begin construction + two samples, finish construction}
 //           7 active construction with samples delivered deepest-first (tensors completed before their lower neighbours: complete-but-blocked data)
 #include "tgrid.hpp"
 #include <sstream>
+#include <algorithm>
 
 static void same(const Obs &r, const Obs &o, const char *stage){
   std::string s(stage);
@@ -46,6 +48,7 @@ int main(int argc, char **argv){
       for (size_t i=0;i<take && i + 1 < nc;i++){ std::vector<double> y(cand.begin() + (nc - 1 - i) * d, cand.begin() + (nc - i) * d); grid.loadConstructedPoints(y, model.values(y, d)); }
     }
   }
+  if (history == 9 && outs > 0) solverChosenHistory(grid, g, model, 3, 70);
   if (history == 5 && g.family != "fourier" && g.rule.find("hermite") == std::string::npos && g.rule.find("laguerre") == std::string::npos) grid.setConformalTransformASIN(std::vector<int>(d, 4));
   // ---- round trip
   std::stringstream s1(std::ios::in | std::ios::out | std::ios::binary);
